@@ -146,6 +146,7 @@ def body(m, cfg):
         m.require(all(f == f0[0] for f in f0), "equivalent spellings, same factor", key=f"alias:{cfg['name']}")
         return
     ua, ub, dt, shape = cfg["ua"], cfg["ub"], cfg["dt"], tuple(cfg["shape"])
+    m.dtype_tol(dt)
     fa, da = C.fd(ua)
     fb, db = C.fd(ub)
     tag = f"{kind}:{C.DT_SHORT[dt]}:{'same' if ua == ub else ('compat' if da == db else 'incompat')}"
